@@ -31,36 +31,44 @@ Lemma spec_slurp_model base maxA s limit total script :
   ginv (N.min base maxA) maxA s ->
   let '(s', m) := model_slurp_msg s limit total script in
   ginv (N.min base maxA) maxA s' /\
-  spec_slurp_msg base maxA limit total script (so_err m) (so_size m) (so_cok m) (so_rem m) (so_alloc m) = true.
+  spec_slurp_msg base maxA limit total script (so_err m) (so_size m) (so_cok m) (so_rem m) (so_alloc m)
+                 (so_held m) = true.
 Proof.
   intros Hnw Hg. unfold model_slurp_msg.
   assert (HBM : N.min base maxA <= maxA) by lia.
   pose proof (slurp_spec _ _ HBM Hnw s limit total script Hg) as Hs.
   destruct (slurp s limit total script) as [[o s'] r'].
-  destruct Hs as ((Hg' & Hmx & Hal & Hpost) & Hfuel).
-  cbn [reset maxSize rtotal rscript] in Hmx, Hal, Hpost.
+  destruct Hs as (((Hg' & Hmx & Hal & Hpost) & (Hh1 & Hh2 & Hh3)) & Hfuel).
+  cbn [reset maxSize rtotal rscript] in Hmx, Hal, Hpost, Hh2.
   split; [exact Hg'|].
   pose proof (ginv_allocated _ _ HBM Hnw s' Hg') as Hacc.
   assert (Hbase : N.min base maxA <= allocated s').
   { destruct Hg' as (G1 & _). unfold allocated. lia. }
-  unfold spec_slurp_msg. cbn [so_err so_size so_cok so_rem so_alloc].
+  unfold spec_slurp_msg. cbn [so_err so_size so_cok so_rem so_alloc so_held].
   assert (Hab : allocated s' <=? alloc_bound (N.min base maxA) maxA limit = true).
   { unfold alloc_bound. destruct (N.eqb_spec limit 0); [lia|].
     assert (0 < limit) by lia. specialize (Hal H). lia. }
   assert (E1 : (allocated s' + remained s' =? maxA) = true) by lia.
   assert (E2 : (N.min base maxA <=? allocated s') = true) by lia.
-  rewrite E1, E2, Hab. cbn [andb].
+  assert (E3 : (bytesRead s' <=? allocated s') = true) by lia.
+  rewrite E1, E2, Hab, E3. cbn [andb].
   destruct o; cbn [outcome_code].
   - (* ROk *)
     destruct Hpost as (Hsize & Hch & Hlim & HleM).
     apply chain_end_Chain in Hch. rewrite Hch, Hsize.
     assert (Htl : too_long limit maxA total = false) by (unfold too_long; destruct Hlim; lia).
-    rewrite Htl. rewrite !N.eqb_refl, N.leb_refl. cbn. apply orb_true_r.
+    rewrite Htl. rewrite !N.eqb_refl, N.leb_refl.
+    assert (Hb : bytesRead s' = total) by (rewrite Hh3 by reflexivity; exact Hsize).
+    assert (Hnot : ((0 <? limit) && (limit <? bytesRead s')) = false) by (destruct Hlim; lia).
+    rewrite Hnot, Hb, N.eqb_refl. cbn. apply orb_true_r.
   - (* RTooLarge *)
     assert (Htl : too_long limit maxA total = true) by (unfold too_long; lia).
-    rewrite Htl. cbn. apply orb_true_r.
+    rewrite Htl. destruct ((0 <? limit) && (limit <? bytesRead s')); cbn; apply orb_true_r.
   - (* RReaderErr *)
-    apply has_err_iff in Hpost. rewrite Hpost. reflexivity.
+    apply has_err_iff in Hpost. rewrite Hpost.
+    assert (Hnot : ((0 <? limit) && (limit <? bytesRead s')) = false)
+      by (destruct Hh2 as [Hz|Hz]; [discriminate|lia|lia]).
+    rewrite Hnot. reflexivity.
   - contradiction.
   - congruence.
 Qed.
@@ -74,7 +82,7 @@ Lemma slurp_content {A} base maxA s limit (data : list A) script s' r' :
 Proof.
   intros Hnw Hg E. assert (HBM : N.min base maxA <= maxA) by lia.
   pose proof (slurp_spec _ _ HBM Hnw s limit (N.of_nat (length data)) script Hg) as Hs.
-  rewrite E in Hs. destruct Hs as ((_ & _ & _ & Hpost) & _). cbn [rtotal] in Hpost.
+  rewrite E in Hs. destruct Hs as (((_ & _ & _ & Hpost) & _) & _). cbn [rtotal] in Hpost.
   destruct Hpost as (Hsize & Hch & _). split; [|exact Hsize]. apply bytes_of_whole. exact Hch.
 Qed.
 
@@ -90,7 +98,7 @@ Lemma spec_slurp_seq base maxA msgs :
   maxA + allocationStep <= two64 ->
   Forall2 (fun msg m => let '(limit, total, script) := msg in
              spec_slurp_msg base maxA limit total script (so_err m) (so_size m) (so_cok m)
-                            (so_rem m) (so_alloc m) = true)
+                            (so_rem m) (so_alloc m) (so_held m) = true)
           msgs (model_seq (make_slurper base maxA) msgs).
 Proof.
   intros Hnw. assert (HBM : N.min base maxA <= maxA) by lia.
@@ -228,12 +236,13 @@ Proof.
   revert Hg. generalize (make_slurper base maxA) as s.
   induction hist as [|[[limit total] script] rest IH]; intros s Hg; cbn [conn_state]; [exact Hg|].
   apply IH. pose proof (slurp_spec _ _ HBM Hnw s limit total script Hg) as Hs.
-  destruct (slurp s limit total script) as [[o s'] r']. cbn [fst snd]. destruct Hs as ((Hg' & _) & _). exact Hg'.
+  destruct (slurp s limit total script) as [[o s'] r']. cbn [fst snd]. destruct Hs as (((Hg' & _) & _) & _). exact Hg'.
 Qed.
 
 (* what [spec_slurp_msg] says, as a proposition *)
 Definition slurp_prop (base maxA limit total : N) (script : list ev)
-           (err size : N) (cok : bool) (remained alloc : N) : Prop :=
+           (err size : N) (cok : bool) (remained alloc held : N) : Prop :=
+  held <= alloc /\ (0 < limit -> limit < held -> err = 1) /\ (err = 0 -> held = size) /\
   alloc + remained = maxA /\ N.min base maxA <= alloc /\
   alloc <= maxA /\ (0 < limit -> alloc <= N.max (N.min base maxA) (limit + allocationStep)) /\
   err <= 2 /\
@@ -242,25 +251,29 @@ Definition slurp_prop (base maxA limit total : N) (script : list ev)
   (err = 2 -> has_err_ev script) /\
   (~ has_err_ev script -> (err = 1 <-> ((0 < limit /\ limit < total) \/ maxA < total)) /\ err <= 1).
 
-Lemma spec_slurp_sound base maxA limit total script err size cok remained alloc :
-  spec_slurp_msg base maxA limit total script err size cok remained alloc = true ->
-  slurp_prop base maxA limit total script err size cok remained alloc.
+Lemma spec_slurp_sound base maxA limit total script err size cok remained alloc held :
+  spec_slurp_msg base maxA limit total script err size cok remained alloc held = true ->
+  slurp_prop base maxA limit total script err size cok remained alloc held.
 Proof.
-  unfold spec_slurp_msg, slurp_prop, alloc_bound, too_long. intros H.
+  unfold spec_slurp_msg, slurp_prop, alloc_bound. intros H.
+  repeat (apply andb_true_iff in H; let K := fresh "K" in destruct H as [H K]).
   pose proof (has_err_iff script) as He.
-  destruct (has_err script) eqn:Eh.
-  - assert (Hev : has_err_ev script) by (apply He; reflexivity).
-    destruct err as [|[p|p|]]; try destruct p; cbn [andb orb] in H; try (rewrite ?andb_false_r in H; discriminate);
-      destruct (N.eqb_spec limit 0); destruct cok; repeat split; intros; try tauto; try lia.
-  - assert (Hev : ~ has_err_ev script) by (intros Hc; apply He in Hc; discriminate).
-    destruct err as [|[p|p|]]; try destruct p; cbn [andb orb] in H; try (rewrite ?andb_false_r in H; discriminate);
-      destruct (N.eqb_spec limit 0); destruct cok; repeat split; intros; try tauto; try lia.
+  assert (Htl : too_long limit maxA total = true <-> ((0 < limit /\ limit < total) \/ maxA < total))
+    by (unfold too_long; lia).
+  destruct (too_long limit maxA total) eqn:Etl;
+  destruct (has_err script) eqn:Eh;
+  destruct ((0 <? limit) && (limit <? held)) eqn:E5;
+  destruct (N.eqb_spec limit 0) as [El|El];
+  destruct err as [|[p|p|]]; try destruct p; cbn [N.eqb Pos.eqb orb] in *; try discriminate;
+    destruct cok; try discriminate;
+    repeat match goal with |- _ /\ _ => split end; intros; try discriminate; try lia; try tauto.
 Qed.
 
 Lemma spec_slurp_conn base maxA hist limit total script :
   maxA + allocationStep <= two64 ->
   let m := snd (model_slurp_msg (conn_state (make_slurper base maxA) hist) limit total script) in
-  spec_slurp_msg base maxA limit total script (so_err m) (so_size m) (so_cok m) (so_rem m) (so_alloc m) = true.
+  spec_slurp_msg base maxA limit total script (so_err m) (so_size m) (so_cok m) (so_rem m) (so_alloc m)
+                 (so_held m) = true.
 Proof.
   intros Hnw. cbn zeta.
   pose proof (spec_slurp_model base maxA _ limit total script Hnw (conn_state_ginv base maxA hist Hnw)) as H.
@@ -278,7 +291,7 @@ Proof.
   destruct (slurp_content base maxA _ limit data script s' r' Hnw Hg E) as (Hb & Hs).
   split; [exact Hb|]. split; [exact Hs|].
   pose proof (slurp_spec _ _ HBM Hnw _ limit (N.of_nat (length data)) script Hg) as Hsp.
-  rewrite E in Hsp. destruct Hsp as ((_ & _ & _ & Hpost) & _). cbn [reset maxSize rtotal] in Hpost.
+  rewrite E in Hsp. destruct Hsp as (((_ & _ & _ & Hpost) & _) & _). cbn [reset maxSize rtotal] in Hpost.
   destruct Hpost as (_ & _ & Hlim & HleM). split; [|exact HleM]. intros Hl. destruct Hlim; lia.
 Qed.
 
@@ -341,7 +354,7 @@ Qed.
    rejected only after 67 584 bytes of buffer were allocated and filled *)
 Lemma literal_limit_witness :
   let '(o, s', r') := slurp (make_slurper 2048 6291456) 6378 70000 [] in
-  o = RTooLarge /\ allocated s' = 67584 /\ rpos r' = 67584 /\ 6378 < allocated s'.
+  o = RTooLarge /\ allocated s' = 67584 /\ bytesRead s' = 67584 /\ 6378 < bytesRead s'.
 Proof. vm_compute. repeat split; reflexivity. Qed.
 
 (* a tag without a limit (unknown or deprecated: MaxMessageSize() = 0) is read up to the
@@ -351,3 +364,11 @@ Lemma unknown_tag_witness :
   let '(o, s', r') := slurp (make_slurper 2048 6291456) (tag_limit [122; 122]) 6291456 [] in
   o = ROk /\ size s' = 6291456.
 Proof. vm_compute. repeat split; reflexivity. Qed.
+
+Lemma literal_limit_refuted :
+  exists base maxA limit total script,
+    let '(o, s', r') := slurp (make_slurper base maxA) limit total script in
+    0 < limit /\ limit < bytesRead s' /\ bytesRead s' <= allocated s' /\ o = RTooLarge.
+Proof.
+  exists 2048, 6291456, 6378, 70000, []. vm_compute. repeat split; (reflexivity || discriminate).
+Qed.
